@@ -11,6 +11,7 @@ import (
 	"github.com/go-i2p/common/lease_set"
 	"github.com/go-i2p/common/lease_set2"
 	"github.com/go-i2p/common/meta_leaseset"
+	"github.com/go-i2p/common/offline_signature"
 	"github.com/go-i2p/common/router_info"
 	"github.com/go-i2p/common/signature"
 )
@@ -147,5 +148,116 @@ func H_C04_HeaderFree() {
 			_, _ = ls.Bytes()
 			_ = ls.Validate()
 		}
+	}
+}
+
+// denseCut draws a truncation length for an encoding of length total: every length in the last 170 bytes (leases,
+// keys, offline block, signature) and around the end of the destination, every 16th elsewhere; thorough: every length.
+func denseCut(total, destEnd int) int {
+	if nd.Thorough() {
+		return nd.IntRange(0, total-1)
+	}
+	var cs []int
+	for k := 0; k < total; k++ {
+		if k >= total-170 || (k >= destEnd-9 && k <= destEnd+24) || k%16 == 0 {
+			cs = append(cs, k)
+		}
+	}
+	return cs[nd.IntRange(0, len(cs)-1)]
+}
+
+// H_C04_Truncation: well-formed composite encodings (content symbolic) cut at every length near each variable-length
+// region (mappings empty: their cuts are C03_Small's): the parser returns (an error), it does not panic.  LeaseSet (legacy), LeaseSet2, MetaLeaseSet,
+// EncryptedLeaseSet, RouterInfo.
+//
+//verif:props C04 C03
+//verif:witness cut-rejected
+//verif:fanout 400
+func H_C04_Truncation() {
+	which := nd.IntRange(0, 4)
+	covShape("case", which)
+	switch which {
+	case 0:
+		shapes := []lsShape{{7, 0, 0, 1, 0}, {7, 0, 0, 2, 0}, {-1, 0, 0, 1, 0}}
+		s := shapes[nd.IntRange(0, len(shapes)-1)]
+		in, total := s.build()
+		dl := destLen(s.sigT, s.excess)
+		nd.Assume(in[dl] == 0 && in[dl+255] >= 2)
+		k := denseCut(total, dl)
+		_, err := lease_set.ReadLeaseSet(in[:k])
+		nd.Assert(err != nil, "trunc/ls/proper-prefix-rejected")
+		nd.Cover("cut-rejected")
+	case 1:
+		shapes := []ls2Shape{{7, 4, 0, -1, 0, []int{32}, 1, 0}, {7, 4, 0, 7, 0, []int{32, 0}, 2, 0}}
+		s := shapes[nd.IntRange(0, len(shapes)-1)]
+		in, total := s.build()
+		k := denseCut(total, 391)
+		_, _, err := lease_set2.ReadLeaseSet2(in[:k])
+		nd.Assert(err != nil, "trunc/ls2/proper-prefix-rejected")
+		nd.Cover("cut-rejected")
+	case 2:
+		shapes := []metaShape{{7, 4, 0, -1, 0, []int{0, 0}, 0}, {7, 4, 0, 7, 0, []int{0}, 0}}
+		s := shapes[nd.IntRange(0, len(shapes)-1)]
+		in, total := s.build()
+		k := denseCut(total, 391)
+		_, _, err := meta_leaseset.ReadMetaLeaseSet(in[:k])
+		nd.Assert(err != nil, "trunc/meta/proper-prefix-rejected")
+		nd.Cover("cut-rejected")
+	case 3:
+		shapes := []encShape{{11, -1, 61, 0}, {11, 7, 62, 0}}
+		s := shapes[nd.IntRange(0, 1)]
+		in, total := s.build()
+		k := denseCut(total, 34)
+		_, _, err := encrypted_leaseset.ReadEncryptedLeaseSet(in[:k])
+		nd.Assert(err != nil, "trunc/enc/proper-prefix-rejected")
+		nd.Cover("cut-rejected")
+	case 4:
+		shapes := []riShape{{7, 4, 0, []raShape{{2, 0}}, 0, 0}}
+		if nd.Thorough() {
+			shapes = append(shapes, riShape{7, 4, 0, []raShape{{0, 0}, {1, 0}}, 0, 0})
+		}
+		s := shapes[nd.IntRange(0, len(shapes)-1)]
+		in, total := s.build()
+		k := denseCut(total, 391)
+		_, _, err := router_info.ReadRouterInfo(in[:k])
+		nd.Assert(err != nil, "trunc/ri/proper-prefix-rejected")
+		nd.Cover("cut-rejected")
+	}
+}
+
+// H_C04_OfflineFree: the offline-signature block with its 16-bit transient type FREE (all 65,536 codes) and the
+// destination signature type argument free, stand-alone and inside LeaseSet2 / MetaLeaseSet / EncryptedLeaseSet;
+// the size lookups with a free code.  Inside the composites the buffer ends at or one byte after an Ed25519 block, so
+// that what follows the block (options of symbolic size) is not explored here.
+//
+//verif:props C04
+func H_C04_OfflineFree() {
+	switch nd.IntRange(0, 4) {
+	case 0:
+		t := nd.Uint16()
+		_ = offline_signature.SigningPublicKeySize(t)
+		_ = offline_signature.SignatureSize(t)
+	case 1:
+		in := nd.Bytes([]int{5, 6, 38, 102, 110, 300}[nd.IntRange(0, 5)])
+		o, _, err := offline_signature.ReadOfflineSignature(in, nd.Uint16())
+		if err == nil {
+			_ = o.Bytes()
+			_ = o.Len()
+		}
+	case 2:
+		in := nd.Bytes(391 + 8 + 6 + []int{0, 96, 97}[nd.IntRange(0, 2)])
+		pinDest(in, 0, 7, 4, 0)
+		nd.Assume(in[398]&1 == 1)
+		_, _, _ = lease_set2.ReadLeaseSet2(in)
+	case 3:
+		in := nd.Bytes(391 + 8 + 6 + []int{0, 96, 97}[nd.IntRange(0, 2)])
+		pinDest(in, 0, 7, 4, 0)
+		nd.Assume(in[398]&1 == 1)
+		_, _, _ = meta_leaseset.ReadMetaLeaseSet(in)
+	case 4:
+		in := nd.Bytes(2 + 32 + 8 + 6 + []int{0, 96, 97}[nd.IntRange(0, 2)])
+		pin(in, 0, 0, 11)
+		nd.Assume(in[41]&1 == 1)
+		_, _, _ = encrypted_leaseset.ReadEncryptedLeaseSet(in)
 	}
 }
